@@ -24,6 +24,15 @@ Theorem C07_c_no_oob_encode : forall B E t o,
 Proof. exact c_no_oob_encode. Qed.
 Print Assumptions C07_c_no_oob_encode.
 
+(* ... and while decoding a buffer produced by the same schema: the buffer is exactly
+   ceil(N/8) bytes, nothing beyond it is read, nothing outside the field objects is written *)
+Theorem C07_c_no_oob_decode : forall B E t v,
+  B = E -> c_schema t -> has_ty (norm t) v = true ->
+  Z.of_nat (length (wire t v)) = nbytes t /\
+  exists o, c_decode_ty B E t (wire t v) = COk o.
+Proof. exact c_no_oob_decode. Qed.
+Print Assumptions C07_c_no_oob_decode.
+
 (* containment: the encoded bytes are the wire of the value READ BACK from storage, and two
    storages that agree on the low n bits of every field give the same bytes — bits outside
    a field's low n bits never reach another field's bits or the padding *)
